@@ -6,7 +6,13 @@ emitter is rendered as a pseudo-notification no machine produces).  Direct
 oracle on the implementation: nothing escapes into the emitter; when a callback
 raised while input k was delivered, the subscriber's last notification is
 on_error(that exception) at k, nothing follows, and the source subscription is
-disposed at k (grammar + release still hold)."""
+disposed at k (grammar + release still hold).
+
+Callback operators that no table covers (join, group_join, expand, starmap,
+pluck, partition_indexed, do_action, zip_with_iterable, aggregate key mappers /
+comparers, cold factories under flat_map ...) are run by the ORACLE-ONLY family
+of harness/c09_rest.py (exception injected at the k-th invocation of one chosen
+callback; oracle straight from the property text)."""
 import random
 
 import k2
@@ -134,13 +140,27 @@ def run(chk):
                         "merge(max_concurrent), switch_map, flat_map_latest, while_do, do_while, catch(handler)) with "
                         "the same oracle")
     chk.add_samples([{"case": c[0], "output": c[1]} for cs in gal.values() for c in cs[:1]][:5])
+    # ---- ORACLE-ONLY family: callback operators that no table covers (join, group_join, expand, starmap, pluck,
+    # partition_indexed, do_action/tap/do, zip_with_iterable, key mappers / comparers of the aggregates, cold
+    # factories under flat_map), hand-driven hot sources, exception injected at the k-th invocation of one callback
+    import c09_rest
+    rest_nt = c09_rest.run_family(chk)
+    chk.cov["distinct_nontrivial"] += len(rest_nt)
+    chk.cov["rule"] += ("; plus the oracle-only family of harness/c09_rest.py over the callback operators outside "
+                        "every table (see uncovered_callback_operators: its own rule and counts)")
     return chk.finish(
         trusted_extra=["raise bookkeeping in harness/k2.py (UserError records the input position at which it was raised)"],
-        assumptions=["operators with callbacks outside the C05/C06 tables (group_by_until duration selectors, defer "
-                     "factories, on_error_resume_next, generate_with_relative_time) are checked in C10/C19/C37 as "
-                     "those are built"])
+        assumptions=["callbacks of window/buffer closing selectors, group_by(_until) selectors and timed mappers are "
+                     "exercised with raising callbacks in C18/C19/C15-C17; finally_action / do_finally actions run at "
+                     "dispose time, after the terminal was delivered (C40); every other callback operator is run here "
+                     "(machines + tables, or the oracle-only family of harness/c09_rest.py)"])
 
 
 def replay(chk, path):
+    import json
+    d = json.load(open(path))
+    if "rest_case" in d:
+        import c09_rest
+        return c09_rest.replay_case(chk, d, path)
     print(open(path).read())
     return 1
